@@ -5,7 +5,7 @@ CONSTANTS
   Data <- DataA
   NumberMode = "conforming"
   MaxCalls = 3
-  GenTextIdx <- Idx123
+  GenTextIdx <- Idx2
   Depth = 3
 INIT HInit
 NEXT HNext
